@@ -28,6 +28,8 @@ const (
 )
 
 func runC03(c *eng.Ctx) {
+	c.Rule("R03.12", "K5")
+	ruleReadAtAnswersFromTheFile(c)
 	p := c.P
 	hw := p.Field(clPkg, "commitLog", "hw")
 	waiters := p.Field(clPkg, "commitLog", "hwWaiters")
